@@ -225,4 +225,28 @@ theorem once_safe (sched : List Tid) :
   · intro t k hk
     exact h.complete_built (h.reading_ok t k hk)
 
+/-! The counter-model: "replace sync.Once by a flag" (check, build, then set the flag). -/
+structure FSt where
+  flag : Bool
+  builds : Nat
+  pc : Tid → Pc
+
+def finit : FSt := { flag := false, builds := 0, pc := fun _ => .idle }
+def fsetPc (s : FSt) (t : Tid) (p : Pc) : FSt := { s with pc := fun u => if u = t then p else s.pc u }
+
+def fstep (s : FSt) (t : Tid) : FSt :=
+  match s.pc t with
+  | .idle => if s.flag then fsetPc s t (.reading 0) else fsetPc { s with builds := s.builds + 1 } t (.building 0)
+  | .building k => if k < N then fsetPc s t (.building (k + 1)) else fsetPc { s with flag := true } t (.reading 0)
+  | .reading k => if k < N then fsetPc s t (.reading (k + 1)) else fsetPc s t .done
+  | _ => s
+
+def frun (sched : List Tid) : FSt := sched.foldl fstep finit
+
+/-- with a plain flag two first users both build: the table is built twice and two writers are enabled at once -/
+theorem flag_unsafe : ∃ sched : List Tid,
+    (frun sched).builds = 2 ∧
+    ∃ t u, t ≠ u ∧ isBuilding ((frun sched).pc t) = true ∧ isBuilding ((frun sched).pc u) = true :=
+  ⟨[0, 1], by decide, 0, 1, by decide, by decide, by decide⟩
+
 end OnceSpike
